@@ -38,7 +38,9 @@ def _gen_one(job):
             g = ob.goal
             if isinstance(g, bool):
                 g = z3.BoolVal(g)
-            if z3.is_true(z3.simplify(g)):
+            if ob.info and ob.info.get("raw_smt2"):
+                vcs.append((ob.name, ob.kind, None, ob.info["raw_smt2"]))
+            elif z3.is_true(z3.simplify(g)):
                 vcs.append((ob.name, ob.kind, ob.info, None))
             else:
                 vcs.append((ob.name, ob.kind, ob.info, smt.to_smt2(ob.hyps, g)))
